@@ -24,7 +24,7 @@ func init() {
 		fds := funcDecls(p)
 		var text [][2]string
 		for _, n := range []string{"Ctx.stmts", "Ctx.stmtInBlock", "Ctx.stmt", "Ctx.ifStmt", "Ctx.endsWithReturn", "Ctx.stmtsEndWithReturn",
-			"Ctx.blockStmt", "Ctx.branchStmt", "Ctx.returnExpr"} {
+			"Ctx.blockStmt", "Ctx.branchStmt", "Ctx.returnExpr", "Ctx.forStmt", "Ctx.loopVar"} {
 			text = append(text, [2]string{n, canonFunc(p, fds[n])})
 		}
 		g.pf("def controlFlow : List (String × String) :=\n  %s\n\n", leanPairList(text))
@@ -50,6 +50,15 @@ func init() {
 			}
 		}
 		g.pf("def widths : List (String × String) :=\n  %s\n\n", leanPairList(conv))
+		// heap data: what the heap model (Model/Heap.lean) was written from
+		var heap [][2]string
+		for _, n := range []string{"Ctx.selectExpr", "Ctx.selectorExpr", "Ctx.structSelector", "Ctx.fieldSelection", "Ctx.structLiteral", "Ctx.unaryExpr", "Ctx.derefExpr",
+			"Ctx.newExpr", "Ctx.makeExpr", "Ctx.makeSliceExpr", "Ctx.indexExpr", "Ctx.sliceExpr", "Ctx.refExpr", "Ctx.lenExpr"} {
+			if fds[n] != nil {
+				heap = append(heap, [2]string{n, canonFunc(p, fds[n])})
+			}
+		}
+		g.pf("def heap : List (String × String) :=\n  %s\n\n", leanPairList(heap))
 		g.pf("end GooseVerif.Gen.Guards\n")
 		g.write()
 	}})
